@@ -447,15 +447,22 @@ def translate(repo):
     if not labels or labels[-1].group(0).split()[0].startswith("case"):
         raise TranslateError("readINITree: `default:` must be the last label of the switch")
     skip, header, hdr_block = [], [], None
+    pending = []   # labels without statements of their own fall through to the next block
     for i, lm in enumerate(labels[:-1]):
         blk = swb[lm.end():labels[i + 1].start()]
+        pending.append(one_char(lm.group(1), "case label"))
+        if not blk.strip():
+            continue
         if re.fullmatch(r"\s*break\s*;\s*", blk):
-            skip.append(one_char(lm.group(1), "case label"))
-        elif "prefix" in blk:
-            header.append(one_char(lm.group(1), "case label"))
+            skip += pending
+        elif "prefix" in blk and re.search(r"break\s*;\s*$", blk):
+            header += pending
             hdr_block = blk
         else:
             raise TranslateError("readINITree: unknown case block for %s" % lm.group(1))
+        pending = []
+    if pending:
+        raise TranslateError("readINITree: case labels %r fall through into `default:`" % pending)
     if len(header) != 1:
         raise TranslateError("readINITree: exactly one group-header case expected")
     dflt = swb[labels[-1].end():]
